@@ -103,10 +103,9 @@ def impl_conn(case):
 def gen_conn(rng):
     """Connectivity(weights, delays) without spread: the discrete (Ns, d+1) ring buffer of _add_matrix_delay; one source population
     with distinct dyadic rates projecting to one or two target populations with different delays (each delayed Connectivity has
-    its own buffer since fix D54). Not generated (loud on the current tree, outside C09): a 1 x 1 delayed matrix (ValueError at the
-    first call) and two Connectivity objects between the same two variables (ValueError at compile time)."""
+    its own buffer since fix D54). Not generated (loud on the current tree, outside C09): two Connectivity objects between the same two variables (ValueError at compile time)."""
     dt = Fr(1, rng.choice([4, 8, 16]))
-    ns = rng.randint(1, 4); nq = rng.randint(1 if ns > 1 else 2, 3); nr = rng.choice([0, 0, rng.randint(1 if ns > 1 else 2, 3)])
+    ns = rng.randint(1, 4); nq = rng.randint(1, 3); nr = rng.choice([0, 0, rng.randint(1, 3)])       # incl. the 1 x 1 matrix (fixes D92/D93)
     ks = rng.sample([Fr(j, 2) for j in range(1, 9)], ns)
     nodes = [dict(kind="s", cls=0, k=str(ks[j]), x0=str(Fr(rng.randint(1, 8), 4))) for j in range(ns)]
     nodes += [dict(kind="t", cls=0, k="0", x0=str(Fr(rng.randint(-8, 8), 4))) for _ in range(nq + nr)]
